@@ -359,6 +359,8 @@ func c20(p *model.Prog, r *report.Result) {
 	}
 	c20Handoff(p, r)
 	c20r6(p, r)
+	w6StatFresh(p, r, "C20.R8")
+	w6LockPairing(p, r, "C20.R7")
 }
 
 // blockingUnderLock reports every blocking primitive executed while Group.mutex or
